@@ -466,12 +466,24 @@ impl ConvexPolyhedron {
     /// Returns `None` if the result had degenerate normals (for example if
     /// the scaling factor along one axis is zero).
     pub fn scaled(mut self, scale: &Vector<Real>) -> Option<Self> {
+        if scale.x * scale.y * scale.z < 0.0 {
+            // A mirror image reverses the orientation of every face: rebuild the
+            // topology from the mirrored, re-oriented triangles.
+            let (mut points, mut indices) = self.to_trimesh();
+            points
+                .iter_mut()
+                .for_each(|pt| pt.coords.component_mul_assign(scale));
+            indices.iter_mut().for_each(|idx| idx.swap(0, 1));
+            return Self::from_convex_mesh(points, &indices);
+        }
+
         self.points
             .iter_mut()
             .for_each(|pt| pt.coords.component_mul_assign(scale));
 
+        // Normals transform by the inverse transpose of the scaling.
         for f in &mut self.faces {
-            f.normal = Unit::try_new(f.normal.component_mul(scale), 0.0).unwrap_or(f.normal);
+            f.normal = Unit::try_new(f.normal.component_div(scale), 0.0).unwrap_or(f.normal);
         }
 
         for e in &mut self.edges {
